@@ -496,7 +496,8 @@ func (p Prop[C]) one(rec *recorder, c C) *Violation {
 func (p Prop[C]) replayPath() string {
 	dir := filepath.Join(Root(), "replays")
 	_ = os.MkdirAll(dir, 0o755)
-	return filepath.Join(dir, fmt.Sprintf("%s-%s-%d-%d.json", p.ID, p.Name, Seed(), Shard()))
+	// the tier is part of the name: a quick and a thorough run of one property may be in flight at the same time
+	return filepath.Join(dir, fmt.Sprintf("%s-%s-%s-%d-%d.json", p.ID, p.Name, Tier(), Seed(), Shard()))
 }
 
 func (p Prop[C]) writeReplay(rec *recorder, enc []byte, msg string) {
